@@ -185,7 +185,48 @@ fn main() {
             let crash_file = format!("{}/.crash-{}", cfg.replay_dir, std::process::id());
             match supervisor::spawn_child(&args, &crash_file, false) {
                 ChildEnd::Exit(c) => std::process::exit(c),
-                ChildEnd::Crash { signal, run, ctx } => {
+                ChildEnd::Crash { mut signal, mut run, mut ctx } => {
+                    // which run crashed first depends on thread timing; make the report
+                    // deterministic: re-run only the runs below it until none of them crashes
+                    let strip = |a: &[String]| -> Vec<String> {
+                        let mut o = Vec::new();
+                        let mut i = 0;
+                        while i < a.len() {
+                            match a[i].as_str() {
+                                "--runs" | "--evidence" => i += 2,
+                                "--no-evidence" => i += 1,
+                                _ => {
+                                    o.push(a[i].clone());
+                                    i += 1;
+                                }
+                            }
+                        }
+                        o
+                    };
+                    while run != u64::MAX && run > 0 {
+                        let mut a = strip(&args);
+                        a.extend(["--runs".to_string(), run.to_string(), "--no-evidence".to_string()]);
+                        match supervisor::spawn_child(&a, &crash_file, true) {
+                            ChildEnd::Crash { signal: s2, run: r2, ctx: c2 } if r2 < run => {
+                                signal = s2;
+                                run = r2;
+                                ctx = c2;
+                            }
+                            ChildEnd::Exit(1) => {
+                                // an ordinary violation at a lower run index comes first
+                                let mut a = strip(&args);
+                                a.extend(["--runs".to_string(), run.to_string()]);
+                                if let Some(e) = &cfg.evidence {
+                                    a.extend(["--evidence".to_string(), e.clone()]);
+                                }
+                                match supervisor::spawn_child(&a, &crash_file, false) {
+                                    ChildEnd::Exit(c) => std::process::exit(c),
+                                    _ => break,
+                                }
+                            }
+                            _ => break,
+                        }
+                    }
                     let code = with_scenario!(id.as_str(), S => {
                         cfg.runs = runs.unwrap_or_else(|| S::default_runs(cfg.tier));
                         supervisor::handle_crash::<S>(&cfg, signal, run, ctx)
